@@ -1,10 +1,13 @@
 (** Correspondence for the segment lookup (used by C01 and C04): the model is run on the request
     the implementation served and the projections of the response are compared. *)
-From Verif Require Import GoSem Timeline.
+From Verif Require Import GoSem Timeline TimelineF.
 
 Record tlcase := {
   c_id : Z;
   k_img : bool;     (* thumbnail: only status and source are observable *)
+  k_edge : bool;    (* the instant is within 2 ms of a transition with a finite non-zero availabilityTimeOffset,
+                       or of the gone edge: float64 rounding may move the decision by 1 ms there, so the
+                       exact model is not compared with the float model on this case *)
   k_rep : rep; k_loopMS : Z; k_cfg : tcfg; k_mode : addressing; k_segID : Z; k_now : Z;
   o_status : Z;     (* 200 425 410 404 500, 0 = panic *)
   o_ms : Z;         (* "too early by <ms>ms" *)
@@ -12,10 +15,14 @@ Record tlcase := {
 }.
 
 (** The handler first refuses requests before availabilityStartTime (cfgFromRequest). *)
-Definition handlerLookup (r : rep) (loopMS : Z) (c : tcfg) (mode : addressing) (segID now : Z)
+Definition handlerLookupG (ck : chk) (r : rep) (loopMS : Z) (c : tcfg) (mode : addressing) (segID now : Z)
   : outcome segmeta :=
   if now <? startS c * 1000 then TTooEarly (startS c - now)
-  else lookup r loopMS c mode segID now.
+  else lookupG ck r loopMS c mode segID now.
+
+(** exact version (the theorems of C01/C04 are about it) and float64 version (bit-faithful) *)
+Definition handlerLookup := handlerLookupG checkTime.
+Definition handlerLookupF := handlerLookupG checkTimeF.
 
 Definition view (o : outcome segmeta) : Z * Z * (Z * Z * Z * Z) :=
   match o with
@@ -27,17 +34,26 @@ Definition view (o : outcome segmeta) : Z * Z * (Z * Z * Z * Z) :=
   | TPanic _ => (0, 0, (0, 0, 0, 0))
   end.
 
-Definition run_case (c : tlcase) := view (handlerLookup (k_rep c) (k_loopMS c) (k_cfg c) (k_mode c) (k_segID c) (k_now c)).
+Definition run_case (c : tlcase) := view (handlerLookupF (k_rep c) (k_loopMS c) (k_cfg c) (k_mode c) (k_segID c) (k_now c)).
+Definition run_exact (c : tlcase) := view (handlerLookup (k_rep c) (k_loopMS c) (k_cfg c) (k_mode c) (k_segID c) (k_now c)).
 
+Definition view_eqb (a b : Z * Z * (Z * Z * Z * Z)) : bool :=
+  let '(s1, m1, (t1, n1, o1, d1)) := a in
+  let '(s2, m2, (t2, n2, o2, d2)) := b in
+  (s1 =? s2) && (m1 =? m2) && (t1 =? t2) && (n1 =? n2) && (o1 =? o2) && (d1 =? d2).
+
+(** A case is in order when the float64 model reproduces the observed response and, away from the
+    instants named under [k_edge], the exact model agrees with the float64 model. *)
 Definition case_ok (c : tlcase) : bool :=
   let '(stt, ms, (t, nr, ot, d)) := run_case c in
   (stt =? o_status c) && (ms =? o_ms c) &&
   (if stt =? 200 then
      if k_img c then ot =? o_srcStart c
      else (t =? o_tfdt c) && (nr =? o_seq c) && (ot =? o_srcStart c) && (d =? o_dur c)
-   else true).
+   else true) &&
+  (k_edge c || view_eqb (run_case c) (run_exact c)).
 
 Definition mismatches (cs : list tlcase) : list Z :=
   map c_id (filter (fun c => negb (case_ok c)) cs).
 
-Definition model_view (c : tlcase) := run_case c.
+Definition model_view (c : tlcase) := (run_case c, run_exact c).
